@@ -10,6 +10,12 @@ fn main() {
     if id == "c03-worker" {
         std::process::exit(worker::main(&args[1..]));
     }
+    if id == "c03-dev" {
+        std::process::exit(c03::dev(&args[1..]));
+    }
+    if id == "c03-serve" {
+        std::process::exit(worker::serve());
+    }
     let ctx = vcore::Ctx::new(&id, &args[1.min(args.len())..]);
     match id.as_str() {
         "C03" => c03::run(&ctx),
